@@ -21,10 +21,12 @@ def main():
     prop, m = sys.argv[1], sys.argv[2]
     checks = sys.argv[3:] or [prop]
     skip_tests = os.environ.get("SEED_SKIP_TESTS") == "1"
-    src = "/tmp/seed/out_%s" % prop
-    tag = "ev_%s_%s" % (prop, m)
+    rnd = os.environ.get("SEED_ROUND", "")
+    src = ("/tmp/seed/o%s_%s" % (rnd, prop)) if rnd else ("/tmp/seed/out_%s" % prop)
+    sid = "%s_%s%s" % (prop, ("r%s" % rnd) if rnd else "", m)
+    tag = "ev_" + sid
     wt = "/tmp/seed/%s" % tag
-    dest = "/verif/seeded/%s_%s" % (prop, m)
+    dest = "/verif/seeded/%s" % sid
     os.makedirs(dest, exist_ok=True)
     if os.path.exists(src + "/%s.diff" % m):
         shutil.copy(src + "/%s.diff" % m, dest + "/patch.diff")
@@ -32,7 +34,7 @@ def main():
     sh("git -C /repo worktree remove --force %s" % wt)
     rc, out = sh("git -C /repo worktree add -q --detach %s HEAD" % wt)
     assert rc == 0, out
-    meta = {"property": prop, "id": "%s_%s" % (prop, m), "base_commit": sh("git -C /repo rev-parse --short HEAD")[1].strip()}
+    meta = {"property": prop, "id": sid, "base_commit": sh("git -C /repo rev-parse --short HEAD")[1].strip()}
     try:
         rc, out = sh("git apply %s/patch.diff" % dest, cwd=wt)
         meta["applies"] = rc == 0
